@@ -24,7 +24,7 @@ PROPS = {
     'C04': dict(units=['storage', 'flagged', 'kinds', 'veckinds'], witness='storage', assumptions=[HEADROOM] + STORAGE_ASSUME + [
                     "unit kinds: 64-bit target (usize = 8 bytes); MaybeUninit<T> modelled as an optional value whose assume_init* REQUIRE initialisation; SyncUnsafeCell/UnsafeCell modelled as a plain cell (get() = shared reference), so shared_get_mut / SliceAccess (raw pointer casts) are not covered; Vec::set_len leaves new elements arbitrary, its capacity precondition and allocation failure are not modelled; AHashMap/BTreeMap are assumed finite maps",
                     "BOUNDED part (Kani, thorough tier only — the smallest VecStorage harness needs 11 minutes, mostly CBMC symbolic execution of Vec growth; reported under coverage.bounded): VecStorage / DefaultVecStorage against the raw-operation contract from every well-formed state within the stated small bounds, u16 components; the thorough tier also re-checks DenseVecStorage on the real unsafe code (cross-check of the stubs used by the proof); NullStorage only in the C08 harness"],
-                kani=dict(files=['storages_harness.rs'], quick=[], thorough=['vec_step_small', 'vec_step', 'default_vec_step_small', 'default_vec_step', 'dense_step'], timeout=3000)),
+                kani=dict(files=['storages_harness.rs'], quick=[], thorough=['kvec_small', 'kvec_step', 'kdefault_small', 'kdefault_step', 'kdense_step'], timeout=3000)),
     'C08': dict(units=['storage', 'kinds', 'veckinds', 'changeset'], witness=None, level='other',
                 # deductive support for the harness assumption "clean() gets the true mask": the mask/content invariant and the exact
                 # map effect of every layer function that moves a value in or out (Verus, unit storage)
@@ -35,7 +35,7 @@ PROPS = {
                 assumptions=["bounds: <= 2-3 stored components over indices < 3, ONE arbitrary operation after a symbolic insertion prefix, then clean(true mask) and drop; u8-tagged tokens (VecStorage, DenseVecStorage), a zero-sized counting type (NullStorage)",
                              "the mask handed to clean() is the true mask: that MaskedStorage keeps it true is the Verus-proved layer invariant (C04)",
                              "outside: DefaultVecStorage/BTree/HashMap kinds in the ledger harness, the lazy queue (SegQueue), world teardown order, ChangeSet, panicking destructors (C19 n/a)"],
-                kani=dict(files=['ownership_harness.rs', 'storages_harness.rs'], quick=['own_vec', 'own_dense', 'own_null', 'dense_clean'], thorough=['own_drain'], timeout=3000)),
+                kani=dict(files=['ownership_harness.rs', 'storages_harness.rs'], quick=['own_vec', 'own_dense', 'own_null', 'kdense_clean'], thorough=['own_drain'], timeout=3000)),
     'C12': dict(units=['flagged', 'flagged_ec', 'join'], witness='storage',
                 assumptions=STORAGE_ASSUME + ["shrev::EventChannel::single_write appends one event and a reader registered earlier receives appended events in order (assumed contract on shrev)",
                                               "FlaggedStorage::shared_get_mut (the shared-access path of non-lending and parallel joins) is verified under the N3 sequentialisation: `&self` -> `&mut self`, the channel cell's get() + `&mut *ptr` -> get_mut(), the inner storage's shared_get_mut -> its get_mut",
@@ -53,7 +53,7 @@ PROPS = {
                     "N8: LendJoin's GAT Type<'next> is collapsed to a plain associated type; the `&mut Storage` lending member is therefore checked as free functions with the same clauses",
                     "JoinLendIter::for_each (closure capturing &mut) and the `&mut Storage` non-lending Join member (SharedGetMutOnly raw sharing) are not under contract"]),
     'C16': dict(units=['changeset'], witness='misc',
-                kani=dict(files=['storages_harness.rs'], quick=[], thorough=['dense_step_small', 'dense_clean'], timeout=3000),
+                kani=dict(files=['storages_harness.rs'], quick=[], thorough=['kdense_small', 'kdense_clean'], timeout=3000),
                 assumptions=STORAGE_ASSUME + ["the inner DenseVecStorage<T> is the REAL struct and trait impl, verified in this unit against the storage contract (over the MaybeUninit / UnsafeCell / unchecked-Vec stubs of prelude/std_unsafe.rs, 64-bit usize); the thorough tier re-checks it on the real unsafe code with Kani (bounded cross-check of those stubs)",
                                               "`T: AddAssign` is modelled by a spec function add_spec(old, new) (arbitrary, possibly non-commutative); `a += b` is desugared to AddAssign::add_assign(&mut a, b) (N16)",
                                               "FromIterator/Extend loops over a generic IntoIterator are not under contract (they call add once per pair in iteration order); the `&mut ChangeSet` non-lending Join member (SharedGetMutOnly) is not under contract"]),
